@@ -15,8 +15,10 @@ EXTENDS Integers, FiniteSets
 
 None == [st |-> "none", approver |-> 0, at |-> 0, shape |-> 0]
 
-(* shapes 1, 2: only the executor wallet is flagged signer / nobody is; shape 3 flags another account *)
-ValidShape(sh) == sh \in {1, 2}
+(* shape ids: 10 * variant + class; class 1: the executor wallet is flagged signer (in some variants
+   read-only, several times, ..), class 2: nobody is (incl. no accounts / no data), class 3: some other
+   account is flagged signer.  The concrete account lists live in the drivers. *)
+ValidShape(sh) == sh % 10 \in {1, 2}
 
 Live(b) == b.st \in {"created", "approved"}
 
